@@ -73,6 +73,12 @@ m("c07-retry-break", L311, "        except _ConcurrentModification:\n           
 m("c07-f13-revert", L311, "                    if again is not obj:\n                        raise _ConcurrentModification", "                    pass", "C07", "racing312,racing311")
 m("c07-f10-revert", L311, "    if frame_owner == FRAME_OWNED_BY_FRAME_OBJECT:\n        # This frame has finished", "    if False:\n        # This frame has finished", "C07", "racing312,racing311")
 m("c07-read-owned-by-frame-object", L311, "            if frame_owner != FRAME_OWNED_BY_FRAME_OBJECT:\n                for i in range(stack_len):", "            if True:\n                for i in range(stack_len):", "C07", "racing312,racing311")
+m("c07-f15-revert-cast-elsewhere", L310, "        if not _is_on_this_thread(frame):\n            details.stack = list(stack)\n            return details, False", "        if False:\n            details.stack = list(stack)\n            return details, False", "C07", "racing310,racing39")
+m("c07-f15-no-agreement-check", L310, "        if first == details and addresses.issuperset(details.stack):", "        if addresses.issuperset(details.stack):", "C07", "racing310,racing39")
+m("c07-f15-no-superset-check", L310, "        if first == details and addresses.issuperset(details.stack):", "        if first == details:", "C07", "racing310,racing39,blocked310")
+m("c07-f15-stacktop-read-twice", L310, "    # references the hard way.\n    if stacktop == 0:", "    # references the hard way.\n    if frame_raw.f_stacktop == 0:", "C07", "racing310,racing39")
+m("c07-f15-no-resume-check", L310, "        assert frame_raw.f_stacktop == stacktop and frame.f_lasti == lasti", "        pass", "C07", "racing310,racing39")
+m("c07-f15-lookup-before-first-read-only", L310, "        first, _ = _inspect_frame(frame)\n        details, is_resolved = _inspect_frame(frame)", "        first, is_resolved = details, False", "C07", "racing310,racing39")
 m("c07-thread-alive-check", GL, "        if inner_frame is None or not thread.is_alive() or not was_alive:", "        if inner_frame is None:", "C07", "blocked312,racing312")
 # ---- C08 -------------------------------------------------------------------
 m("c08-async-skip-insns", LL, "            skip_insns = 7 if is_async else 1", "            skip_insns = 6 if is_async else 1", "C08", "w312,w311")
@@ -159,8 +165,18 @@ EQUIVALENT = {
 def sh(cmd, env=None, cwd=None, timeout=1800):
     e = dict(os.environ)
     e.update(env or {})
-    p = subprocess.run(cmd, shell=True, env=e, cwd=cwd, stdout=subprocess.PIPE, stderr=subprocess.STDOUT, timeout=timeout)
-    return p.returncode, p.stdout.decode("utf-8", "replace")
+    p = subprocess.Popen(cmd, shell=True, env=e, cwd=cwd, stdout=subprocess.PIPE, stderr=subprocess.STDOUT, start_new_session=True)
+    try:
+        out, _ = p.communicate(timeout=timeout)
+    except subprocess.TimeoutExpired:
+        import signal
+        try:
+            os.killpg(p.pid, signal.SIGKILL)
+        except OSError:
+            pass
+        out, _ = p.communicate()
+        return 124, out.decode("utf-8", "replace") + "\n[timed out]"
+    return p.returncode, out.decode("utf-8", "replace")
 
 
 def main(argv):
@@ -171,7 +187,12 @@ def main(argv):
     if os.path.exists(path):
         results = json.load(open(path))
     todo = [x for x in M if not ids or x["id"] in ids or x["prop"] in ids]
+    for a in argv:
+        if a.startswith("--from="):
+            k = [x["id"] for x in todo].index(a.split("=", 1)[1])
+            todo = todo[k:]
     for x in todo:
+        keep_replays = set(os.listdir(os.path.join(VERIF, "replays")))
         scratch = tempfile.mkdtemp(prefix="mutant-")
         res = {"property": x["prop"], "kind": x["kind"], "legs": x["legs"]}
         try:
@@ -211,7 +232,7 @@ def main(argv):
         finally:
             shutil.rmtree(scratch, ignore_errors=True)
             for f in os.listdir(os.path.join(VERIF, "replays")):
-                if f.endswith(".json"):
+                if f.endswith(".json") and f not in keep_replays:
                     os.remove(os.path.join(VERIF, "replays", f))
         results[x["id"]] = res
         print(x["id"], res.get("status"), res.get("violation_kinds"), "tests_pass=%s" % res.get("tests_pass"))
